@@ -44,15 +44,15 @@ func Spec() *run.Spec {
 		},
 		MinNontrivial: map[string]int{"quick": 500, "thorough": 1000},
 		MinObserved: map[string]int64{
-			"add_basis_pairs":      256,
-			"mul_basis_pairs":      256,
-			"det_row_basis":        256,
-			"inverse_permutations": 24,
+			"add_basis_pairs":          256,
+			"mul_basis_pairs":          256,
+			"det_row_basis":            256,
+			"inverse_permutations":     24,
 			"rotto_exact_antiparallel": 6,
-			"rotto_snap_band":      50,
-			"inverse_law_checked":  500,
-			"mesh_positions":       1000,
-			"aabb_grow_steps":      1000,
+			"rotto_snap_band":          50,
+			"inverse_law_checked":      500,
+			"mesh_positions":           1000,
+			"aabb_grow_steps":          1000,
 		},
 		Phases: []run.Phase{
 			{Name: "tables", Cases: func(string) int { return nTables }, Run: tables, Batch: 2},
